@@ -53,7 +53,8 @@ def build(case):
         labs = gen.clone_labeling(rng, f, STR_ALPH) or [f"n{i}" for i in range(n)]
         nodes = gen.build(t, f, lambda i: labs[i])
     elif fl == "int":
-        labs = gen.clone_labeling(rng, f, [1, 2, 3, 4, 5, 6, 7]) or list(range(100, 100 + n))
+        # -1 and 2**61+5 are ints whose default id differs from the value (hash(-1) == -2, hash(2**61+5) == 6)
+        labs = gen.clone_labeling(rng, f, [1, 2, 3, 4, 5, -1, 2**61 + 5]) or list(range(100, 100 + n))
         nids = rng.sample(range(1, 12), min(n, 11)) + list(range(50, 50 + n))
         nodes = []
         # explicit node ids that may coincide with other nodes' data (= default data_id for ints)
@@ -265,7 +266,7 @@ def run_case(case, res):
             keys = []
             for x in order:
                 keys += [x.node_id, x.data_id, x.data]
-            keys += ["zz", 987654, "a", "b", 1, 2, 3, 4, 5, "ghost-a", "ghost-b", "ghost-c", "ghost-id"]
+            keys += ["zz", 987654, "a", "b", 1, 2, 3, 4, 5, -1, -2, 6, 2**61 + 5, "ghost-a", "ghost-b", "ghost-c", "ghost-id"]
             seen = set()
             for key in keys:
                 if (type(key), key) in seen or isinstance(key, bool):
